@@ -6,6 +6,9 @@ from common import Broken, sh
 
 ASSUMPTIONS = [
     "a transaction that returns a non-zero code leaves the state unchanged (C06); the model's handlers are no-ops on failure",
+    "the static part of stakeTx/unstakeTx/withdrawTx.Validate (signatures by the stake account and the validator key, fee currency and "
+    "price, well-formed addresses and public key, validator address = address of the consensus key (9246c8d)) holds for every generated "
+    "transaction; the model contains the state/amount-dependent part (coin valid, balance covers the stake, stake-address match, amount > 0)",
     "the transaction currency is OLT (the only registered stake currency); other currencies are C18/C02 matter",
     "allegation verdicts, the frozen flag, the open-request flag, the purge-height rule, the stake account's balance and the "
     "result of the fee step are INPUTS of the model operations (theorems hold for all values; the harness reads them from the real stores)",
@@ -76,10 +79,27 @@ def payload(cases, ci, step):
             "how": "./check replay <this file>  (re-runs the plan on the real application)"}
 
 
+# monitors whose expected value comes from the MODEL's state (maturing entries, pending penalty, penalised totals)
+MODEL_DEPENDENT = {13, 14, 15, 17, 18, 19}
+
+
 def judge(ctx, cases, mm, mon, trg):
     found_input = False
     known_hits = {}
+    # model / implementation mismatches: tolerated only downstream of a KNOWN trigger (one-sided comparison: the
+    # implementation may behave like the defective model or have been repaired).  From the first tolerated divergence on,
+    # the model no longer describes that history, so the model-dependent monitors are not evaluated on its remainder.
+    bad, diverged = [], {}
+    for (ci, step, code) in mm:
+        fired = {t for (c2, s2, t) in trg if c2 == ci and s2 <= step}
+        if fired and all(common.known("C11", TRIGGERS[t]) for t in fired):
+            diverged[ci] = min(diverged.get(ci, step), step)
+            continue
+        bad.append((ci, step, code))
     for (ci, step, code) in mon:
+        first_bad = min([s2 for (c2, s2, _) in bad if c2 == ci], default=None)
+        if code in MODEL_DEPENDENT and ci in diverged and step >= diverged[ci] and (first_bad is None or first_bad > diverged[ci]):
+            continue    # (a history that already mismatched OUTSIDE a known trigger region keeps all its monitors)
         what, expl = MONITORS.get(code, ("monitor %d" % code, []))
         fired = sorted({t for (c2, s2, t) in trg if c2 == ci and s2 <= step and t in expl}, key=expl.index)
         explained = False
@@ -94,13 +114,6 @@ def judge(ctx, cases, mm, mon, trg):
         if ctx.violations < 3:
             ctx.violation("monitor_%d_case_%d" % (code, ci), dict(payload(cases, ci, step), kind=what, monitor=code,
                           triggers_fired=[TRIGGERS[t] for (c2, s2, t) in trg if c2 == ci and s2 <= step]))
-    # model / implementation mismatches: tolerated only downstream of a known trigger (one-sided comparison)
-    bad = []
-    for (ci, step, code) in mm:
-        fired = {t for (c2, s2, t) in trg if c2 == ci and s2 <= step}
-        if fired and all(common.known("C11", TRIGGERS[t]) for t in fired):
-            continue
-        bad.append((ci, step, code))
     if bad and not found_input:
         ci, step, code = bad[0]
         raise Broken("correspondence Stake.v vs the real application broke: %s differs" % MM_CODES.get(code, code),
